@@ -32,6 +32,10 @@ type Prog struct {
 	// is a nexus package, keyed by short name, e.g. "router.(*dealer).syncCall",
 	// "router.(*dealer).call$1", "router.prepareEvent".
 	Funcs map[string]*ssa.Function
+	// Notes records what the normalisation pass did (helpers inlined, or why not).
+	Notes []string
+	// Inlined lists the helpers all of whose call sites were inlined (dead code, excluded from Funcs).
+	Inlined []string
 	// NexusFuncs in deterministic order.
 	NexusFuncs []*ssa.Function
 	GoArch     string
@@ -67,6 +71,53 @@ func Load(dir string, extraEnv ...string) (*Prog, error) {
 	if len(errs) > 0 {
 		return nil, fmt.Errorf("type-check errors in %s: %s", dir, strings.Join(errs, "; "))
 	}
+	// normalisation: inline helper functions that are newer than the rules (see inline.go)
+	var notes, dead []string
+	if len(Canon) > 0 && os.Getenv("NXCHECK_NOINLINE") == "" {
+		overlay := map[string][]byte{}
+		for round := 1; round <= 4; round++ {
+			overlayNow = overlay
+			ov, d, log := InlineNewHelpers(pkgs, round)
+			notes = append(notes, log...)
+			if ov == nil {
+				break
+			}
+			next := map[string][]byte{}
+			for k, v := range overlay {
+				next[k] = v
+			}
+			for k, v := range ov {
+				next[k] = v
+			}
+			fset2 := token.NewFileSet()
+			cfg2 := *cfg
+			cfg2.Fset = fset2
+			cfg2.Overlay = next
+			pkgs2, err := packages.Load(&cfg2, "./...")
+			bad := ""
+			if err != nil {
+				bad = err.Error()
+			} else {
+				packages.Visit(pkgs2, nil, func(p *packages.Package) {
+					if strings.HasPrefix(p.PkgPath, ModPath) && len(p.Errors) > 0 && bad == "" {
+						bad = p.Errors[0].Error()
+					}
+				})
+			}
+			if bad != "" {
+				notes = append(notes, "normalisation round discarded (rewritten program does not type-check: "+bad+"); the program is analysed as written")
+				if os.Getenv("NXCHECK_INLINE_DEBUG") != "" {
+					for k, v := range ov {
+						_ = os.WriteFile("/tmp/nxinline-"+strings.ReplaceAll(strings.TrimPrefix(k, dir), "/", "_"), v, 0o644)
+					}
+				}
+				break
+			}
+			pkgs, fset, overlay = pkgs2, fset2, next
+			dead = append(dead, d...)
+		}
+		overlayNow = nil
+	}
 	prog, _ := ssautil.AllPackages(pkgs, ssa.InstantiateGenerics)
 	prog.Build()
 
@@ -77,6 +128,7 @@ func Load(dir string, extraEnv ...string) (*Prog, error) {
 		SSA:   prog,
 		SPkg:  map[string]*ssa.Package{},
 		Funcs: map[string]*ssa.Function{},
+		Notes: notes,
 	}
 	for _, e := range extraEnv {
 		if strings.HasPrefix(e, "GOARCH=") {
@@ -124,11 +176,55 @@ func Load(dir string, extraEnv ...string) (*Prog, error) {
 		if _, dup := p.Funcs[name]; dup {
 			continue
 		}
+		if isDead(name, dead) && !stillUsed(prog, fn) {
+			p.Inlined = append(p.Inlined, name)
+			continue
+		}
 		p.Funcs[name] = fn
 		p.NexusFuncs = append(p.NexusFuncs, fn)
 	}
 	sort.Slice(p.NexusFuncs, func(i, j int) bool { return ShortName(p.NexusFuncs[i]) < ShortName(p.NexusFuncs[j]) })
 	return p, nil
+}
+
+func isDead(name string, dead []string) bool {
+	for _, d := range dead {
+		if name == d || strings.HasPrefix(name, d+"$") {
+			return true
+		}
+	}
+	return false
+}
+
+// stillUsed reports whether fn (or, for a closure, its outermost parent) is still referenced by an instruction of
+// another function: then it is not dead and stays in the analysed set.
+func stillUsed(prog *ssa.Program, fn *ssa.Function) bool {
+	root := fn
+	for root.Parent() != nil {
+		root = root.Parent()
+	}
+	for g := range ssautil.AllFunctions(prog) {
+		top := g
+		for top.Parent() != nil {
+			top = top.Parent()
+		}
+		if top == root {
+			continue
+		}
+		for _, b := range g.Blocks {
+			for _, in := range b.Instrs {
+				for _, op := range in.Operands(nil) {
+					if *op == nil {
+						continue
+					}
+					if f, ok := (*op).(*ssa.Function); ok && (f == root || f.Origin() == root) {
+						return true
+					}
+				}
+			}
+		}
+	}
+	return false
 }
 
 // relPkg returns the module-relative package path of a types.Package, or ""
